@@ -60,7 +60,8 @@ func TimeFromProto(proto *dtpb.Time) Time {
 	duration := fhirconv.TimeToDuration(proto)
 	// Anchor on the same zero date that ParseTime produces, so that a Time
 	// converted from a proto compares equal to the same Time parsed from text.
-	t := time.Date(0, time.January, 1, 0, 0, 0, 0, time.UTC).Add(duration)
+	// System Times have millisecond precision: do not keep hidden microseconds.
+	t := time.Date(0, time.January, 1, 0, 0, 0, 0, time.UTC).Add(duration).Truncate(time.Millisecond)
 	var l layout
 	switch proto.Precision {
 	case dtpb.Time_MICROSECOND:
